@@ -35,6 +35,7 @@ def run(project, rep):
     rep.run(S.s_r12_superdict_precedence, Schema(project), rep)
     from .. import rules_dates as Z
     rep.run(Z.z_r8_offset_domain, project, rep)
+    rep.run(Z.z_r9_no_value_memo, project, rep)
     from .. import rules_wire as L
     rep.run(Z.z_r2_naive, project, rep)
     rep.rule("T-R8", "texts that do not denote a date-time / time are rejected when read: the grammar of the two patterns (Z-R1, Z-R1b)")
